@@ -31,6 +31,12 @@ func toByteSortable[T Invertable](v T) ([]byte, error) {
 		/* Floats are bit more tricky to convert to a sortable byte array but follow a similar principle:
 		 * https://stackoverflow.com/questions/54557158/byte-ordering-of-floats
 		 */
+		if v == 0 {
+			// Fold -0.0 onto +0.0: they compare equal, so they must share a
+			// key. Without this -0.0 takes the non-negative branch with its
+			// sign bit set and ends up below -Inf, decoding as NaN.
+			v = 0
+		}
 		bits := math.Float64bits(v)
 		if v >= 0 {
 			bits ^= 0x8000000000000000 // math.MinInt64
